@@ -154,7 +154,7 @@ class Engine:
         self.exec_s += time.time() - t0
         return r
 
-    def run_function(self, fname, make_args, mask, mask2=None, mode="f64", numeric=None, numeric2=None):
+    def run_function(self, fname, make_args, mask, mask2=None, mode="f64", numeric=None, numeric2=None, share=None, prefix=""):
         """Execute an arbitrary MIR function; make_args(series) -> list of argument values."""
         t0 = time.time()
         fn = self.fns.get(fname)
@@ -163,11 +163,14 @@ class Engine:
         ex = Executor(self.fns, self.solver, self.consts, natives.NATIVES, mode)
         ex.numeric = numeric is not None
         ex.normalizer = None
-        xs, box = self.make_series("x", mask, numeric)
+        if share is not None:          # second run of a relational query: same sqrt symbols, same assumptions
+            ex.sqrt_memo = share.sqrt_memo
+            ex.assumptions = share.assumptions
+        xs, box = self.make_series(prefix + "x", mask, numeric)
         ex.series = {"self": xs}
         ex.assumptions.extend(box)
         if mask2 is not None:
-            ys, box2 = self.make_series("y", mask2, numeric2)
+            ys, box2 = self.make_series(prefix + "y", mask2, numeric2)
             ex.series["other"] = ys
             ex.assumptions.extend(box2)
         ex.outputs = None
